@@ -250,8 +250,21 @@ func (g *ghostGen) generate() (string, []*Harness) {
 	var drv []string
 	bodyEmit := func(format string, a ...any) { fmt.Fprintf(&body, format, a...) }
 	for _, cf := range g.cf {
+		cf.declLn = nil
+		if cf.DeclsBad != "" {
+			for _, it := range cf.Items {
+				if it.Stale == "" {
+					it.Stale = "a ghost block of " + cf.Path + " does not compile: " + cf.DeclsBad
+				}
+			}
+		}
 		for _, d := range cf.Decls {
+			if cf.DeclsBad != "" {
+				continue
+			}
+			start := strings.Count(body.String(), "\n")
 			bodyEmit("%s\n", desugarDecl(d))
+			cf.declLn = append(cf.declLn, [2]int{start, strings.Count(body.String(), "\n")})
 		}
 		for _, it := range cf.Items {
 			if it.Stale != "" {
@@ -577,6 +590,12 @@ func (g *ghostGen) generate() (string, []*Harness) {
 	}
 	hd.WriteString("\n")
 	off := strings.Count(hd.String(), "\n")
+	for _, cf := range g.cf {
+		for i := range cf.declLn {
+			cf.declLn[i][0] += off + 1
+			cf.declLn[i][1] += off + 1
+		}
+	}
 	for _, h := range g.harn {
 		h.startLn += off + 1
 		h.endLn += off + 1
@@ -811,6 +830,17 @@ func LoadProgram(repo string, props map[string]bool) (*Program, error) {
 									staleNow++
 								}
 								hit = true
+							}
+						}
+						if !hit {
+							for _, cf := range byDir[d] {
+								for _, rg := range cf.declLn {
+									if ln > rg[0] && ln <= rg[1] && cf.DeclsBad == "" {
+										cf.DeclsBad = e.Msg
+										staleNow++
+										hit = true
+									}
+								}
 							}
 						}
 						if !hit {
